@@ -840,3 +840,72 @@ func TestVerif_C17_ParkedCrowd(t *testing.T) {
 		}
 	})
 }
+
+// ---- hundreds of calls inside their hashing step at once --------------------------------------------------------------------
+//
+// The id- and message-level entry points hash before they do anything else; with messages of megabytes that step lasts longer than
+// a scheduler time slice, so a burst of a few hundred goroutines has more calls INSIDE the hash than there are processors — or
+// entries in any fixed pool of hash states. Every one of them must get what it gets alone.
+
+func TestVerif_C17_HashCrowd(t *testing.T) {
+	rec := stats.Get("C17", "hash-crowd")
+	rec.Rule("rapid draws a key, an id, a 4 MiB message and a goroutine count from {70, 130, 260}; a valid signature is prepared with the references; the goroutines leave a barrier together and each calls Verify(id, P, msg, r, s) (must accept), VerifyZa, ZA (reference value) or Sign with its own fixed stream (reference signature). Non-trivial: every plan; distinct by (key, count).")
+	t.Cleanup(stats.FlushAll)
+	rapid.Check(t, func(t *rapid.T) {
+		r := gen.Rand(t, "content")
+		g := []int{70, 130, 260}[gen.Uniform(t, "goroutines", 0, 2)]
+		d := new(big.Int).SetBytes(gen.RandBytes(r, 40))
+		d.Mod(d, sm2gen.NM2).Add(d, big.NewInt(1))
+		d32 := gen.Pad32(d)
+		px, py, _ := sm2gen.Pub(d)
+		id := gen.RandBytes(r, gen.Uniform(t, "idlen", 1, 30))
+		msg := gen.RandBytes(r, 4<<20+gen.Uniform(t, "extra", 0, 63))
+		za, _ := sm2ref.ZA(id, px, py)
+		e := sm2ref.E(za, msg)
+		stream := gen.RandBytes(r, 96)
+		stream[0] &= 0x7f
+		rr, ss, _, _, err := sm2ref.Sign(d, e, stream)
+		if err != nil {
+			return
+		}
+		rb, sb := gen.Pad32(rr), gen.Pad32(ss)
+		rec.Case(stats.HashS(fmt.Sprint(g))^stats.Hash(d32), true, fmt.Sprintf("goroutines:%d", g))
+		bar := &c17Barrier{n: int32(g)}
+		var bad atomic.Value
+		var wg sync.WaitGroup
+		for i := 0; i < g; i++ {
+			wg.Add(1)
+			go func(i int) {
+				defer wg.Done()
+				defer func() {
+					if p := recover(); p != nil {
+						bad.CompareAndSwap(nil, fmt.Sprintf("goroutine %d panicked: %v", i, p))
+					}
+				}()
+				bar.wait()
+				switch i % 4 {
+				case 0, 1:
+					if ok, err := sm2.Verify(id, px, py, msg, rb, sb); !ok || err != nil {
+						bad.CompareAndSwap(nil, fmt.Sprintf("goroutine %d of %d: Verify of a valid signature over a %d-byte message returned (%v, %v)", i, g, len(msg), ok, err))
+					}
+				case 2:
+					if got, err := sm2.ZA(id, px, py); err != nil || !bytes.Equal(got, za) {
+						bad.CompareAndSwap(nil, fmt.Sprintf("goroutine %d of %d: ZA differs from the reference (%v)", i, g, err))
+					}
+					if ok, err := sm2.VerifyZa(px, py, za, msg, rb, sb); !ok || err != nil {
+						bad.CompareAndSwap(nil, fmt.Sprintf("goroutine %d of %d: VerifyZa of a valid signature returned (%v, %v)", i, g, ok, err))
+					}
+				default:
+					r2, s2, err := sm2.Sign(id, px, py, bytes.NewReader(stream), d32, msg)
+					if err != nil || !bytes.Equal(r2, rb) || !bytes.Equal(s2, sb) {
+						bad.CompareAndSwap(nil, fmt.Sprintf("goroutine %d of %d: Sign over a %d-byte message differs from the reference (%v)", i, g, len(msg), err))
+					}
+				}
+			}(i)
+		}
+		wg.Wait()
+		if m := bad.Load(); m != nil {
+			vt.Fail(t, rec, "C17:hash-crowd:result-differs", "%s", m)
+		}
+	})
+}
